@@ -141,7 +141,7 @@ fn show_into<EE: proto_vulcan::engine::Engine<HUser>>(t: &LTerm<HUser, EE>, out:
         }
         LTermInner::Compound(c) => {
             out.push('{');
-            out.push_str(c.type_name());
+            out.push_str(if c.type_name().is_empty() { "Tup" } else { c.type_name() });
             show_children(c.as_ref(), out);
             out.push('}')
         }
@@ -158,7 +158,12 @@ fn show_children<EE: proto_vulcan::engine::Engine<HUser>>(
                 out.push(' ');
                 show_into(t, out)
             }
-            None => show_children(child, out),
+            None => {
+                // a typed field that is not a term (Option<..>): one compound type for Some and None
+                out.push_str(" {Opt");
+                show_children(child, out);
+                out.push('}')
+            }
         }
     }
 }
@@ -188,7 +193,11 @@ fn shape_children<EE: proto_vulcan::engine::Engine<HUser>>(
                 out.push(' ');
                 out.push_str(&shape(t))
             }
-            None => shape_children(child, out),
+            None => {
+                out.push_str(" {");
+                shape_children(child, out);
+                out.push('}')
+            }
         }
     }
 }
@@ -528,14 +537,7 @@ pub fn build<G: K>(defs: &Defs, env: &Env, e: &Sexp) -> G {
                     // only if U *is* a number when the goal is built; it does not look U up in the state
                     let u = build_term(env, &args[0]);
                     let v = build_term(env, &args[1]);
-                    FnGoal::new::<G>(Box::new(move |_solver: &Solver<U, E>, state: State<U, E>| match u.as_ref() {
-                        LTermInner::Val(LValue::Number(n)) => match state.unify(&LTerm::from(n * n), &v) {
-                            Ok(s) => Stream::unit(Box::new(s)),
-                            Err(_) => Stream::empty(),
-                        },
-                        _ => Stream::empty(),
-                    }))
-                    .cast_into()
+                    sq::<G>(u, v)
                 }
                 "probe" => {
                     // records the hook counters and the store size of every state that reaches it
@@ -717,13 +719,24 @@ pub fn fmt_answer(results: &[LResult<U, E>], steps: u64) -> String {
 }
 
 // the non-relational goal used with project (as sqeq in the library's own project tests)
+// the number a term shows without consulting the substitution: itself, or the first number found
+// going down the heads of lists and the first fields of compounds
+pub fn first_number(t: &T) -> Option<isize> {
+    match t.as_ref() {
+        LTermInner::Val(LValue::Number(n)) => Some(*n),
+        LTermInner::Cons(h, _) => first_number(h),
+        LTermInner::Compound(o) => o.children().next().and_then(|k| k.as_term().and_then(first_number)),
+        _ => None,
+    }
+}
+
 pub fn sq<G: K>(u: T, v: T) -> G {
-    FnGoal::new::<G>(Box::new(move |_solver: &Solver<U, E>, state: State<U, E>| match u.as_ref() {
-        LTermInner::Val(LValue::Number(n)) => match state.unify(&LTerm::from(n * n), &v) {
+    FnGoal::new::<G>(Box::new(move |_solver: &Solver<U, E>, state: State<U, E>| match first_number(&u) {
+        Some(n) => match state.unify(&LTerm::from(n * n), &v) {
             Ok(s) => Stream::unit(Box::new(s)),
             Err(_) => Stream::empty(),
         },
-        _ => Stream::empty(),
+        None => Stream::empty(),
     }))
     .cast_into()
 }
